@@ -1,5 +1,30 @@
+/- LEX suite of the driver: runs the lexer model (Garnish.Model.Lexer) with the generated Unicode range tables.
+Case:   LEX \t id \t <escaped text>
+Result: `ok` then per token `\tTypeName,row,col,<escaped token text>` | `err` | `PANIC <site>` | `FUELOUT` -/
 import Garnish.Driver.Proto
+import Garnish.Model.Lexer
+import Garnish.Gen.CharRanges
 namespace Garnish.Driver
-/-- LEX suite (stub, replaced by the lexer model's driver) -/
-def lexCase (_f : List String) : String := "UNIMPLEMENTED"
+open Garnish.Model.Lexer
+
+/-- the Rust std predicates, from the tables dumped by the harness suite CHARCLASS -/
+def rustCharClass : CharClass where
+  isAlphanumeric := Garnish.Gen.CharRanges.isAlphanumeric
+  isNumeric := Garnish.Gen.CharRanges.isNumeric
+
+def showToken (t : LexerToken) : String :=
+  s!"{t.tokenType.name},{t.row},{t.column},{Garnish.Proto.escape t.text}"
+
+def showLexOutcome : Outcome (List LexerToken) → String
+  | .ok tokens => tokens.foldl (fun acc t => acc ++ "\t" ++ showToken t) "ok"
+  | .err _ => "err"
+  | .panic site => s!"PANIC {site}"
+  | .fuelOut => "FUELOUT"
+
+/-- LEX suite -/
+def lexCase (f : List String) : String :=
+  match f with
+  | _ :: _ :: text :: _ => showLexOutcome (lex rustCharClass (Garnish.Proto.unescape text.toList))
+  | [_, _] => showLexOutcome (lex rustCharClass [])
+  | _ => "BAD-CASE"
 end Garnish.Driver
